@@ -94,7 +94,8 @@ def r1_r4(ctx):
                     clos_ok = bool(diff) and bool(somes) and payload_ok and not any(s in cb.reachable(0, removed_edges=diff) for s in somes)
         r1.check(ok and clos_ok, "[%s] new address = majority().%s filtered to differ from the advertised socket" % (fam, comp), "set_udp_socket|%s|source" % fam,
                  "the %s socket written into the local record derives from %s" % (fam, fmt_short(a)), loc=b.loc(t.line))
-        r1.check(bool(inserts) and must_pass(b, [bi], via_blocks=inserts), "[%s] the current vote is inserted before the majority is evaluated" % fam,
+        maj_blocks = [x[3][1] for x in walk(a) if x[0] == "call" and x[1] == IV + "majority" and x[3][0] == b.path]
+        r1.check(bool(inserts) and bool(maj_blocks) and must_pass(b, maj_blocks, via_blocks=inserts), "[%s] the current vote is inserted before the majority is evaluated" % fam,
                  "set_udp_socket|%s|vote-first" % fam, "the majority is evaluated without the current vote having been inserted", loc=b.loc(t.line))
         rec = fmt_short(prov.operand(t.args[0]))
         r1.check("self.local_enr" in rec and "self.enr_key" in fmt_short(prov.operand(t.args[2])), "[%s] local_enr.write().set_udp_socket(addr, &enr_key.read())" % fam,
